@@ -118,8 +118,19 @@ SetFuncOK(sig, opt, funcs, logs, e) ==
 \* "... and nothing else": what another mock instance held before the history started (by0) is not touched
 OtherInstanceUntouched(by0, e) == e.by = by0
 
-StepOK(sig, opt, funcs, logs, by0, e) ==
+\* A record once returned keeps denoting the same call.  The observer RETAINS results of MCalls() (the returned slice
+\* itself, not a copy): after an operation that changed method x's log to a non-empty value it keeps what MxCalls()
+\* returned then.  snaps = the retained results so far, as [m, recs] in the order taken (recs = what they showed when
+\* taken); e.snaps = the same retained slices re-inspected AFTER operation e.  No operation -- in particular no reset
+\* followed by further calls -- may change them ("one record per call ... whose fields hold the arguments";
+\* "resets empty the corresponding records and nothing else").
+ReturnedRecordsStable(snaps, e) == e.snaps = snaps
+SnapOf(logs, e, x) == IF e.logs[x] # logs[x] /\ e.logs[x] # << >> THEN <<[m |-> x, recs |-> e.logs[x]]>> ELSE << >>
+SnapsAfter(snaps, logs, e) == snaps \o SnapOf(logs, e, "A") \o SnapOf(logs, e, "B")
+
+StepOK(sig, opt, funcs, logs, by0, snaps, e) ==
   /\ OtherInstanceUntouched(by0, e)
+  /\ ReturnedRecordsStable(snaps, e)
   /\ CASE e.op = "call"     -> CallOK(sig, opt, funcs, logs, e)
        [] e.op = "resetm"   -> ResetEmptiesOnlyItsTarget(sig, opt, funcs, logs, e)
        [] e.op = "resetall" -> ResetEmptiesOnlyItsTarget(sig, opt, funcs, logs, e)
@@ -127,8 +138,9 @@ StepOK(sig, opt, funcs, logs, by0, e) ==
        [] OTHER -> FALSE
 
 \* diagnosis only (which clause rejected a step); the verdict is StepOK
-FailedClause(sig, opt, funcs, logs, by0, e) ==
+FailedClause(sig, opt, funcs, logs, by0, snaps, e) ==
   IF ~OtherInstanceUntouched(by0, e) THEN "OtherInstanceUntouched"
+  ELSE IF ~ReturnedRecordsStable(snaps, e) THEN "ReturnedRecordsStable"
   ELSE IF e.op = "call" THEN
        LET m == e.m
            grow == Len(e.logs[m]) - Len(logs[m])
